@@ -142,6 +142,28 @@ func (P) Exec(line string) string {
 		close(start)
 		wg.Wait()
 		return strings.Join(outs, "|")
+	case "seq":
+		// successive chain instances ("lives") over the same data with different configuration
+		if len(f) != 3 {
+			return "bad-op"
+		}
+		var outs []string
+		for _, sub := range strings.Split(f[2], "|") {
+			ff := strings.Split(sub, "/")
+			if len(ff) != 5 {
+				return "bad-op"
+			}
+			o := func() (o string) {
+				defer func() {
+					if r := recover(); r != nil {
+						o = "panic"
+					}
+				}()
+				return execQ(ff)
+			}()
+			outs = append(outs, o)
+		}
+		return strings.Join(outs, "|")
 	case "str":
 		return strings.ReplaceAll(blockchain.ThresholdState(byte(i64(f[2]))).String(), " ", "_")
 	case "eaa":
